@@ -53,10 +53,10 @@ def run(ctx):
     alone, together = Counter(), Counter()
     nvalid = 0
     for c, io, mo in rows:
-        if mo == "valid":
+        if first_word(mo) == "valid":
             nvalid += 1
             continue
-        rules = mo.split(" ", 1)[1].split(",")
+        rules = mo.split(" ")[1].split(",")
         for r in rules:
             (alone if len(rules) == 1 else together)[r] += 1
     ctx.cov["per_rule"] = {r: {"violated_alone": alone[r], "violated_with_others": together[r],
